@@ -339,8 +339,8 @@ def _parse_options(buffer: Buffer, mode:CoAPOptionMode) -> Tuple[List[FieldDescr
 
         option_value_length = (option_length_int + option_length_extended_int) * 8
 
+        option_value: Buffer = option_bytes[option_offset: option_offset+option_value_length]
         if option_value_length > 0:
-            option_value: Buffer = option_bytes[option_offset: option_offset+option_value_length]
             option_field_positions[CoAPFields.OPTION_VALUE] += 1
 
         option_offset += option_value_length
@@ -373,6 +373,7 @@ def _parse_options(buffer: Buffer, mode:CoAPOptionMode) -> Tuple[List[FieldDescr
                     option_delta_extended_int = option_delta_extended.value()
                     option_index += option_delta_extended_int + 13
                 else:
+                    option_delta_extended_int = option_delta_extended.value()
                     option_index += option_delta_extended_int + 269
                 interpreted_option_field_id = COAP_OPTIONS_NUMBER_TO_NAME[option_index]
                 option_field_positions[interpreted_option_field_id] += 1
